@@ -203,12 +203,13 @@ Print Assumptions C10_two_way_memo_needs_involution.
        cache lookup/store of the seven files uses exactly the pinned key expression *)
 Theorem C10_global_state_classified :
   forallb state_classified state_items = true /\ state_audit_live state_items = true /\
-  cache_keys = pinned_cache_keys /\ resolution_key_ok resolution_key_fields = true /\
+  (cache_keys = pinned_cache_keys \/ cache_keys = pinned_cache_keys_after_protocol_fix) /\
+  resolution_key_ok resolution_key_fields = true /\
   map st_name (filter (fun s => match lookup_state s (state_audit ++ state_audit_extra)%list with Some (SProcessCache _) => true | _ => false end) state_items)
   = ["_empty_constrained"; "directory_has_init"; "get_all_error_codes"; "_get_checker"; "_typing_name_cache"]%string.
 Proof.
   destruct all_state_items_classified as [H1 H2]. split; [exact H1|]. split; [exact H2|].
-  split; [apply keys_eqb_eq; exact cache_keys_are_pinned|].
+  split; [pose proof cache_keys_are_pinned as Hk; apply orb_true_iff in Hk; destruct Hk as [Hk|Hk]; [left|right]; apply keys_eqb_eq; exact Hk|].
   split; [exact resolution_cache_key_keeps_what_determines_the_result|exact process_global_caches_are_exactly].
 Qed.
 Print Assumptions C10_global_state_classified.
